@@ -398,6 +398,29 @@ var vkKinds = []vkKind{
 		m.Extra = append(m.Extra, gl)
 		return true
 	}},
+	{"inject-authority-oz-neg", 0, func(c *vkTamperCtx, m *dns.Msg) bool {
+		// a (validly signed) negative answer padded with unsigned records of OTHER zones in its authority
+		// section: a foreign SOA, a foreign NSEC and a foreign TXT
+		if len(m.Answer) != 0 || len(m.Ns) == 0 {
+			return false
+		}
+		victim := "zz-other."
+		if s := c.sibling(); s != nil {
+			victim = s.Apex
+		}
+		for _, l := range []string{
+			victim + " 300 IN SOA ns.evil." + victim + " h.evil." + victim + " 1 2 3 4 5",
+			"a." + victim + " 300 IN NSEC z." + victim + " A RRSIG NSEC",
+			"inj." + victim + " 300 IN TXT \"injected\"",
+		} {
+			rr, err := dns.NewRR(l)
+			if err != nil {
+				panic(err)
+			}
+			m.Ns = append(m.Ns, rr)
+		}
+		return true
+	}},
 	{"clone-first", 0, func(c *vkTamperCtx, m *dns.Msg) bool {
 		// a same-key-tag clone of the zone signing key ahead of the genuine keys
 		if c.q.Qtype != dns.TypeDNSKEY || c.zone == nil || c.zone.ZSK == nil {
